@@ -1,4 +1,5 @@
 import RV.Json
+import RV.Drv.Fault
 import RV.Model.Traffic
 import RV.Oracle.Traffic
 namespace RV.Drv.Traffic
@@ -67,11 +68,13 @@ def handle : Handler := fun op inp impl => do
         | some _ => pure [("C09.traffic_no_panic", false)]
         | none => do
           let io ← outOfJson impl
-          pure (RV.Oracle.Traffic.callOracles call c n m io))
-      return { model := outToJson o, holds := holds,
+          let rc ← fBool impl "recheck"
+          pure (RV.Oracle.Traffic.callOracles call c n m io ++ [("C07.retry_has_wakeup", RV.Oracle.Traffic.retryHasWakeup call c io rc)]))
+      return { model := (outToJson o).setObjVal! "recheck" (boolJ (RV.Oracle.Traffic.recheckOf call c o)), holds := holds,
                tags := [s!"call:{call}", if o.done then "res:true" else "res:false", if o.err then "err" else "noerr",
                         if o.net != n then "netwrite" else "nonetwrite", s!"grace:{c.grace}"] ++
                         (if c.hasRevKey then [] else ["guard:noRevKey"]) }
+  | "fault" => RV.Drv.Fault.handleFault ["C03", "C04", "C05", "C06", "C07", "C09", "C10", "C14"] impl
   | _ => .error s!"traffic: unknown op {op}"
 
 end RV.Drv.Traffic
